@@ -56,7 +56,7 @@ def pinnedSkeleton : List (String × String) := [
   ("VarDef.write", "5634fcdebcb5"),
   ("exeParser.readField", "a34d4efa5ee5"),
   ("exeParser.readFragRef", "9c97fce48d73"),
-  ("exeParser.readFragment", "5aacdd9cdfa0"),
+  ("exeParser.readFragment", "ddd930c0e6c7"),
   ("exeParser.readFragmentDef", "ac7947967256"),
   ("exeParser.readInline", "c937b7931829"),
   ("exeParser.readOp", "fd5442d6288c"),
